@@ -83,6 +83,48 @@ Example C07_nonvacuous_schedule :
   c_trace 2 (repeat [] 3) NoThr 3 (g_cold R) = [[5; 9; 7]; [5; 0; 7]; [1; 0; 0]].
 Proof. exact nonvacuous_schedule. Qed.
 
+
+(* ---- layer D, histories on ONE estimator object (Model/CURHistSched.v) ---------------------
+   A history is a list of stages (recompute_every, n_to_select): the first is a cold fit, every
+   later one is  set_params(recompute_every=re, n_to_select=k); fit(X, y, warm_start=True).
+     [h_fit cand R sts]  final loop state and everything presented to the arg-max
+     [h_idx sts]         number (in the stream R of refresh vectors) of the vector in force at each
+                         selection: within a fit the schedule of THAT fit's recompute_every on the
+                         global counter n_selected_; every warm start loads the next vector
+     [h_last sts]        number of the last vector consumed
+     [stages_ok n 0 sts] the n_to_select never decrease and never exceed the number of candidates
+   EVERY number of candidates, EVERY history (any number of fits, any recompute_every per fit,
+   incl. 0 -> non-zero and back, warm starts that add no selection): each selection is the first
+   maximiser, among the items not selected before it, of the vector in force; all fits complete;
+   exactly the vectors 0 .. h_last are consumed. *)
+From Verif Require Import CURHistSched CURHistSchedP.
+
+Theorem C07_history_argmax :
+  forall (n : nat) (R : list (list Z)) (sts : list (nat * nat)) (g' : gst cst) (tr : list (list Z)),
+    Forall (fun r => length r = n) R ->
+    sts <> [] -> stages_ok n 0 sts ->
+    (h_last sts < length R)%nat ->
+    h_fit (repeat [] n) R sts = (g', tr) ->
+    length (sel g') = length (h_idx sts) /\
+    c_ok (sst g') = true /\
+    c_rest (sst g') = skipn (S (h_last sts)) R /\
+    forall j, (j < length (sel g'))%nat ->
+      best_wrt n (nth (nth j (h_idx sts) O) R []) (firstn j (sel g')) (nth j (sel g') O).
+Proof. exact history_argmax. Qed.
+Print Assumptions C07_history_argmax.
+
+(* non-vacuity: fit 1 with recompute_every = 0 selects two items on the first vector (the second
+   on the stale score); set_params(recompute_every=1, n_to_select=3) + warm start loads the
+   second vector (nothing zeroed: [1; 0; 3] is presented as it is) and selects the third item *)
+Example C07_nonvacuous_history :
+  let R := [[5; 9; 7]; [1; 0; 3]; [0; 0; 0]] in
+  let sts := [(0, 2); (1, 3)]%nat in
+  Forall (fun r => length r = 3%nat) R /\ stages_ok 3 0 sts /\ (h_last sts < length R)%nat /\
+  sel (fst (h_fit (repeat [] 3) R sts)) = [1; 2; 0]%nat /\
+  h_idx sts = [0; 0; 1]%nat /\
+  snd (h_fit (repeat [] 3) R sts) = [[5; 9; 7]; [5; 0; 7]; [1; 0; 3]].
+Proof. exact nonvacuous_history. Qed.
+
 (* ---- layer A --------------------------------------------------------------------------- *)
 From mathcomp Require Import all_ssreflect all_algebra.
 From Verif Require Import MExp MExpMx MxBox PCovR CURLoop CURLoopMx CURLoopP CURLoopEx.
@@ -304,3 +346,76 @@ Example C07_nonvacuous_lstsq :
   forall (F : rcfType) n p t (X : 'M[F]_(n, t)) (y : 'M[F]_(n, p)) (Yr : 'M[F]_(t, p)),
     lstsq_ok X y (1%:M : 'M[F]_t) Yr Yr Yr.
 Proof. exact ex_lstsq. Qed.
+
+(* ---- layer A, histories (Model/CURHistMx.v) ------------------------------------------------- *)
+From Verif Require Import CURHistMx CURHistP CURHistEx.
+
+(* The re-orthogonalisation loop of _continue_greedy_search WITH its guard
+     for c in selected_idx_: if norm(X_current_[:, c]) > tolerance * norm(X[:, c]): orthogonalize(c)
+   ([warm_fold_mx]; guard_mx is the comparison).  s1 = the items already projected out of
+   X_current_ (selected while recompute_every != 0, pivots normalised); s2 = the items selected
+   afterwards while recompute_every was 0: they are still in the residual, and each of them, at its
+   turn, exceeds the relative tolerance ([stale_live]).  Then the loop over selected_idx_ =
+   s1 ++ s2 leaves the s1 part alone and projects the s2 items out ONE AFTER THE OTHER, each from
+   the residual left by the previous one: the result is X_orthogonalizer folded over ALL selections
+   in selection order, i.e. (C07_residual_is_projection) the projection residual.  s1 = [] is
+   `fit with recompute_every = 0, set_params(recompute_every != 0), warm start`. *)
+Theorem C07_warm_catches_up :
+  forall (F : rcfType) (r c : nat) (X : 'M[F]_(r, c)) (tol : F),
+    0 < tol -> forall s1 s2 : seq 'I_c, pivots_ok tol X s1 ->
+    stale_live tol X (orth_fold_mx tol X s1) s2 ->
+    warm_fold_mx tol X (orth_fold_mx tol X s1) (s1 ++ s2) = orth_fold_mx tol X (s1 ++ s2).
+Proof. exact warm_catches_up. Qed.
+Print Assumptions C07_warm_catches_up.
+
+Theorem C07_warm_catches_up_projection :
+  forall (F : rcfType) (r c : nat) (X : 'M[F]_(r, c)) (tol : F),
+    0 < tol -> forall s1 s2 : seq 'I_c, pivots_ok tol X (s1 ++ s2) ->
+    stale_live tol X (orth_fold_mx tol X s1) s2 ->
+    let Xc := warm_fold_mx tol X (orth_fold_mx tol X s1) (s1 ++ s2) in
+    [/\ forall j, j \in s1 ++ s2 -> Xc^T *m col j X = 0,
+        exists B : 'M[F]_c, X - Xc = X *m B /\ forall i, i \notin s1 ++ s2 -> row i B = 0
+      & forall j, j \in s1 ++ s2 -> col j Xc = 0].
+Proof. exact warm_catches_up_projection. Qed.
+Print Assumptions C07_warm_catches_up_projection.
+
+(* a warm start on an up-to-date residual changes nothing *)
+Theorem C07_warm_idempotent :
+  forall (F : rcfType) (r c : nat) (X : 'M[F]_(r, c)) (tol : F),
+    0 < tol -> forall s : seq 'I_c, pivots_ok tol X s ->
+    warm_fold_mx tol X (orth_fold_mx tol X s) s = orth_fold_mx tol X s.
+Proof. exact warm_idempotent. Qed.
+Print Assumptions C07_warm_idempotent.
+
+(* Y_feature_orthogonalizer over ANY sequence of calls of a history: call number i uses the
+   X_selected_ buffer at fill level t_i and width K_i >= t_i with t_1 <= t_2 <= ... (equal levels:
+   one call per re-orthogonalised item at a warm start; jumps: selections made while
+   recompute_every = 0 triggered no call) and ANY symmetric generalised inverse.  The running y is
+   THE least-squares residual of y on the first T = t_last selected columns.  C07_y_feature is the
+   special case t_i = i. *)
+Theorem C07_y_feature_events :
+  forall (F : rcfType) (n m p : nat) (X : 'M[F]_(n, m)) (sel : seq nat) (y : 'M[F]_(n, p))
+         (evs : seq (nat * hintV F)),
+    events_ok X sel y 0 evs -> evs != [::] ->
+    let T := last 0%N (map fst evs) in
+    let Xs := buf_mx X sel T T in
+    let z := yfeat_events_mx X sel evs y in
+    (Xs^T *m z = 0 /\ exists b : 'M[F]_(T, p), y - z = Xs *m b) /\
+    forall V' : 'M[F]_T,
+      Xs^T *m Xs *m V' *m (Xs^T *m Xs) = Xs^T *m Xs -> V'^T = V' ->
+      z = y - Xs *m V' *m Xs^T *m y.
+Proof. exact y_feature_events. Qed.
+Print Assumptions C07_y_feature_events.
+
+Example C07_nonvacuous_warm :
+  forall F : rcfType,
+    [/\ 0 < (2%:R^-1 : F), pivots_ok 2%:R^-1 (exX F) [::]
+      & stale_live 2%:R^-1 (exX F) (orth_fold_mx 2%:R^-1 (exX F) [::]) [:: ord0]] /\
+    warm_fold_mx 2%:R^-1 (exX F) (orth_fold_mx 2%:R^-1 (exX F) [::]) ([::] ++ [:: ord0]) != exX F.
+Proof. exact (fun F => conj (ex_warm F) (ex_warm_moves F)). Qed.
+
+Example C07_nonvacuous_events :
+  forall (F : rcfType) (y0 : 'M[F]_(1, 1)),
+    let ev : nat * hintV F := (1%N, existT _ 1%N (1%:M : 'M[F]_1)) in
+    events_ok (1%:M : 'M[F]_1) [:: 0%N] y0 0 [:: ev; ev] /\ [:: ev; ev] != [::].
+Proof. exact ex_events. Qed.
